@@ -324,7 +324,7 @@ def run(ctx, res):
         check_sched(ctx, spec, res, ctx.n(4, 8))
     for spec in c06e.corpus():
         check_connect(ctx, spec, res, 6)
-    for _ in range(ctx.n(60, 1500)):
+    for _ in range(ctx.n(160, 2500)):
         spec = c06e.gen_case(ctx.rng)
         check_connect(ctx, spec, res, ctx.n(4, 6))
 
